@@ -96,7 +96,15 @@ def run(ctx):
         ctx.oblige("translator t_verlet (scan body, counter mode, refresh wrap, list cutoff)", True)
     except Exception as ex:
         ctx.oblige("translator t_verlet (scan body, counter mode, refresh wrap, list cutoff)", False, repr(ex))
-    lean_ok = common.lean_obligations(ctx, ["Sympler.Verlet", "Props.C02", "PropsR.C02", "symdrv"], ["Props.C02", "PropsR.C02"], THEOREMS + THEOREMS_R, MODULES)
+    import dyngen
+    try:
+        import t_pairlists
+        common.write_if_changed(os.path.join(common.LEAN, "Sympler/Gen/PairListsGen.lean"), t_pairlists.generate(common.REPO))
+        ctx.oblige(dyngen.NAME3, True)
+    except Exception as ex:
+        ctx.oblige(dyngen.NAME3, False, repr(ex))
+    lean_ok = common.lean_obligations(ctx, ["Sympler.Verlet", "Props.C02", "PropsR.C02", "Props.PairLists", "symdrv"], ["Props.C02", "PropsR.C02", "Props.PairLists"],
+                                      THEOREMS + THEOREMS_R + dyngen.PL, MODULES + ["Sympler.Gen.PairListsGen", "Props.PairLists"])
     nA, nB = (50, 12) if not ctx.thorough else (800, 200)
     base = os.path.join(common.WORK, "c02-%d" % os.getpid())
     results = []
